@@ -14,7 +14,10 @@ def has_call(term, pred):
     return any(isinstance(x, tuple) and x and x[0] == "call" and pred(x[1]) for x in walk(term))
 
 
-def crc_gates(prog, body, ev):
+HELPER_GATES = {}
+
+
+def crc_gates(prog, body, ev, _depth=0):
     """comparisons `stored crc != calculate_crc32c(..)`: returns list of (switch block, pass-successor, fail-successor, crc call term, line)"""
     out = []
     for c in comparisons(prog, body, ev):
@@ -30,6 +33,36 @@ def crc_gates(prog, body, ev):
         tr, fa = sw
         ok_succ, bad_succ = (fa, tr) if op == "Ne" else (tr, fa)
         out.append((c["sw_block"], ok_succ, bad_succ, stored, calc, c["line"]))
+    if _depth:
+        return out
+    # a checksum comparison extracted into a helper `verify(stored, len, header, data, ..) -> Result<(), ReadError>` called with `?`:
+    # the Continue edge of that `?` is the gate, with the caller's arguments substituted for the helper's parameters
+    from ..util import try_edges, ok_return_blocks as _okr
+    for bi, t in body.calls():
+        hp = body.callee(t) or body.callee_decl(t) or ""
+        hb = prog.bodies.get(hp)
+        if hb is None or hp == CRC or hb.path == body.path or not hp.startswith("seglog::"):
+            continue
+        hev = Ev(prog, hb)
+        hg = crc_gates(prog, hb, hev, _depth=1)
+        if len(hg) != 1:
+            continue
+        (hsb, hok, hbad, hstored, hcalc, hline) = hg[0]
+        oks = [x for x, _ in _okr(hb)]
+        if not oks or must_pass(hb, oks, [hok]):
+            continue            # the helper can return Ok without passing its own comparison
+        te = try_edges(body, bi)
+        if te is None:
+            continue
+        def subst(term):
+            tt = strip(term)
+            if tt[0] == "param" and 1 <= tt[1] <= len(t["args"]):
+                return ev.operand(t["args"][tt[1] - 1], (bi, "T"))
+            if tt[0] == "call":
+                return ("call", tt[1], tuple(subst(a) for a in tt[2])) + tuple(tt[3:])
+            return term
+        out.append((te[0], te[1], te[2], subst(hstored), subst(hcalc), t.get("line")))
+        HELPER_GATES[(body.path, te[0])] = (hb, hsb, hbad)
     return out
 
 
@@ -54,9 +87,25 @@ def run(chk, facts_dir, tier):
     cev = Ev(prog, cb)
     ups = calls(cb, "crc32fast::Hasher::update")
     params = []
+
+    def _as_param(x):
+        x = strip(x)
+        while x[0] == "call" and x[1].rsplit("::", 1)[-1] in ("as_slice", "as_ref", "deref", "borrow") and len(x[2]) == 1:
+            x = strip(x[2][0])          # a view of the same bytes
+        return x[1] if x[0] == "param" else None
+
     for bi, t in ups:
         a = strip(cev.operand(t["args"][1], (bi, "T")))
-        params.append(a[1] if a[0] == "param" else None)
+        if _as_param(a) is not None:
+            params.append(_as_param(a))
+            continue
+        # `for part in [len_bytes.as_slice(), header, data] { hasher.update(part) }`: the element of an iteration over an array of the arguments
+        arr = [x for x in walk(a) if isinstance(x, tuple) and x and x[0] == "agg" and x[1] in ("array", "tuple")]
+        it = any(isinstance(x, tuple) and x and x[0] == "call" and x[1].endswith("Iterator>::next") for x in walk(a))
+        if it and len(arr) == 1 and all(_as_param(e) is not None for e in arr[0][2]):
+            params += [_as_param(e) for e in arr[0][2]]
+        else:
+            params.append(None)
     if params == [1, 2, 3] or sorted(p for p in params if p) == [1, 2, 3] and len(params) == 3:
         chk.ok("R17.3", "hasher.update(len_bytes), update(header), update(data) on the raw arguments", cb.where())
     else:
@@ -93,8 +142,9 @@ def run(chk, facts_dir, tier):
             chk.ok("R17.1", "%s: every Ok return passes a checksum gate (%d gates)" % (path.split("::")[-1], len(gates)), b.where())
         # the failing edge must produce Crc32cMismatch
         for (sb, ok_succ, bad_succ, stored, calc, line) in gates:
-            bad_region = b.reach_from([bad_succ], avoid=frozenset([sb]))
-            errs = [i for i, j, s in b.assigns() if i in bad_region and s["rv"]["k"] == "agg" and s["rv"]["ak"].endswith("ReadError::Crc32cMismatch")]
+            eb, esb, ebad = (b, sb, bad_succ) if (b.path, sb) not in HELPER_GATES else HELPER_GATES[(b.path, sb)]
+            bad_region = eb.reach_from([ebad], avoid=frozenset([esb]))
+            errs = [i for i, j, s in eb.assigns() if i in bad_region and s["rv"]["k"] == "agg" and s["rv"]["ak"].endswith("ReadError::Crc32cMismatch")]
             if not errs:
                 chk.fail("R17.1", path, "crc-fail-edge", "a failed checksum comparison does not lead to ReadError::Crc32cMismatch", b, line)
             # argument sanity: stored crc decoded little-endian from the record head; calc args
@@ -274,6 +324,11 @@ def _returned_is_checked(chk, prog):
         for bi, t in calls(b, CRC):
             for a in t["args"][1:]:
                 checked |= _roots(ev.operand(a, (bi, "T")))
+        for g in crc_gates(prog, b, ev):           # includes comparisons made in a helper, with the caller's arguments substituted
+            for x in walk(g[4]):
+                if isinstance(x, tuple) and x and x[0] == "call" and x[1] == CRC:
+                    for a in x[2][1:]:
+                        checked |= _roots(a)
         for ob, s in ok_return_blocks(b):
             term = ev.operand(s["rv"]["ops"][0], (ob, 0))
             ret = _roots(term) - {r for r in _roots(term) if r[0] == "field" and r[1] == "decompress_buf"}
